@@ -97,7 +97,9 @@ def _run(ctx):
     seed = str(ctx.seed)
 
     # ---------------------------------------------------------------- (A) the design
-    jobs = [("MC_ZRoute.cfg", "main"), ("MC_ZRoute_part.cfg", "main2")] + [(c, inv) for c, inv in MUTANTS.items()]
+    # quick: key sequences up to length 2, thorough: up to length 3 (all mappings over 3 keys in both)
+    jobs = ([("MC_ZRoute_q.cfg", "main"), ("MC_ZRoute_part_q.cfg", "main2")] if quick else
+            [("MC_ZRoute.cfg", "main"), ("MC_ZRoute_part.cfg", "main2")]) + [(c, inv) for c, inv in MUTANTS.items()]
 
     def mc(job):
         cfg, inv = job
@@ -128,7 +130,7 @@ def _run(ctx):
     if quick:
         stages = [
             ("map", ["-mode", "map", "-seed", seed, "-keys", "160"]),
-            ("serve-general", ["-mode", "serve", "-seed", seed, "-p", "2,3,8", "-steps", "140", "-eng", "mem"]),
+            ("serve-general", ["-mode", "serve", "-seed", seed, "-p", "2,3,8", "-steps", "120", "-eng", "mem"]),
             ("serve-isolate-crossmget", ["-mode", "serve", "-seed", seed, "-p", "2,3", "-steps", "50", "-eng", "mem", "-crossmget"]),
         ]
     else:
